@@ -272,7 +272,9 @@ static inline void myth_tls_fini() {
 static inline int
 myth_tls_key_allocator_alloc(myth_tls_key_allocator_t * s,
 			     myth_tls_destructor_fun_t destructor) {
+  MYTH_VERIF_POINT(85);
   myth_spin_lock_body(&s->lock);
+  MYTH_VERIF_EV0("KaLock");
   while (1) {
     /* try to pull the element from the free list */
     MYTH_VERIF_POINT(80);
@@ -288,11 +290,13 @@ myth_tls_key_allocator_alloc(myth_tls_key_allocator_t * s,
 	MYTH_VERIF_EV3("KaCas", (long)((ke) ? (((ke) == (myth_tls_key_entry_t *)-1) ? -2 : (long)((ke) - s->keys)) : -1), (long)((next) ? (((next) == (myth_tls_key_entry_t *)-1) ? -2 : (long)((next) - s->keys)) : -1), 1);
 	ke->next = (myth_tls_key_entry_t *)-1;
 	ke->destructor = destructor;
+	MYTH_VERIF_EV0("KaUnlock");
 	myth_spin_unlock_body(&s->lock);
 	return ke - s->keys;
       }
       MYTH_VERIF_EV3("KaCas", (long)((ke) ? (((ke) == (myth_tls_key_entry_t *)-1) ? -2 : (long)((ke) - s->keys)) : -1), (long)((next) ? (((next) == (myth_tls_key_entry_t *)-1) ? -2 : (long)((next) - s->keys)) : -1), 0);
     } else {
+      MYTH_VERIF_EV0("KaUnlock");
       myth_spin_unlock_body(&s->lock);
       return -1;
     }
@@ -306,9 +310,12 @@ myth_tls_key_allocator_dealloc(myth_tls_key_allocator_t * s, int key) {
     return (myth_tls_destructor_fun_t)-1;
   }
   myth_tls_key_entry_t * ke = &s->keys[key];
+  MYTH_VERIF_POINT(85);
   myth_spin_lock_body(&s->lock);
+  MYTH_VERIF_EV0("KaLock");
   /* make sure the key is being used */
   if (ke->next != (myth_tls_key_entry_t *)-1) {
+    MYTH_VERIF_EV0("KaUnlock");
     myth_spin_unlock_body(&s->lock);
     return (myth_tls_destructor_fun_t)-1;
   }
@@ -322,6 +329,7 @@ myth_tls_key_allocator_dealloc(myth_tls_key_allocator_t * s, int key) {
     MYTH_VERIF_POINT(84);
     if (__sync_bool_compare_and_swap(&s->free, head, ke)) {
       MYTH_VERIF_EV3("KdCas", key, (long)((head) ? (((head) == (myth_tls_key_entry_t *)-1) ? -2 : (long)((head) - s->keys)) : -1), 1);
+      MYTH_VERIF_EV0("KaUnlock");
       myth_spin_unlock_body(&s->lock);
       return f;
     }
